@@ -2,10 +2,10 @@ CONSTANTS
  Confs <- MCConfs
  FixWaitErr = FALSE
  Reduce = TRUE
- MCShapes = {"img", "dup", "idx2", "nested", "art", "artidx", "bentry", "docker", "schema1", "ext", "empty", "inline", "dtag", "loop"}
- MCPairs = {"tworeg", "samereg", "samerepo", "reg2dir", "dir2reg", "dir2dir"}
- MCOpts <- MCOptsAll
- MCFeats <- MCFeatsCore
+ MCShapes = {"img", "dup", "idx2", "nested", "bentry", "docker", "schema1", "ext", "empty", "inline", "dtag"}
+ MCPairs = {"tworeg", "samereg", "reg2dir", "dir2reg"}
+ MCOpts <- MCOptsNoRefs
+ MCFeats <- MCFeatsDefault
  MCInit = "corners"
  MCTag0 = {"none", "same"}
  MCByDigest = {FALSE}
